@@ -416,35 +416,38 @@ class DataChannel(FlavorChannel["DataChannel"], typing.Generic[ReceiverType], AB
     @value_receiver.setter
     def value_receiver(self, new_partner: ReceiverType | None):
         if new_partner is not None:
-            if not isinstance(new_partner, self.__class__):
-                raise TypeError(
-                    f"The {self.__class__.__name__} {self.full_label} got a coupling "
-                    f"partner {new_partner} but requires something of the same type"
-                )
-
-            if new_partner is self:
-                raise ValueError(
-                    f"{self.__class__.__name__} {self.full_label} cannot couple to "
-                    f"itself"
-                )
-
-            if (
-                self._both_typed(new_partner)
-                and new_partner.strict_hints
-                and not type_hint_is_as_or_more_specific_than(
-                    self.type_hint, new_partner.type_hint
-                )
-            ):
-                raise ValueError(
-                    f"The channel {self.full_label} cannot take "
-                    f"{new_partner.full_label} as a value receiver because this "
-                    f"type hint ({self.type_hint}) is not as or more specific than "
-                    f"the receiving type hint ({new_partner.type_hint})."
-                )
-
+            self._ensure_valid_value_receiver(new_partner)
             new_partner.value = self.value
 
         self._value_receiver = new_partner
+
+    def _ensure_valid_value_receiver(self, new_partner: ReceiverType) -> None:
+        """Everything the setter checks about a prospective partner; changes nothing."""
+        if not isinstance(new_partner, self.__class__):
+            raise TypeError(
+                f"The {self.__class__.__name__} {self.full_label} got a coupling "
+                f"partner {new_partner} but requires something of the same type"
+            )
+
+        if new_partner is self:
+            raise ValueError(
+                f"{self.__class__.__name__} {self.full_label} cannot couple to "
+                f"itself"
+            )
+
+        if (
+            self._both_typed(new_partner)
+            and new_partner.strict_hints
+            and not type_hint_is_as_or_more_specific_than(
+                self.type_hint, new_partner.type_hint
+            )
+        ):
+            raise ValueError(
+                f"The channel {self.full_label} cannot take "
+                f"{new_partner.full_label} as a value receiver because this "
+                f"type hint ({self.type_hint}) is not as or more specific than "
+                f"the receiving type hint ({new_partner.type_hint})."
+            )
 
     @property
     def ready(self) -> bool:
